@@ -335,7 +335,7 @@ def parse_case_lines(lines):
         if q[0] == "msg":
             ops.append(("msg", unhx(q[1]) if len(q) > 1 else b"", len(q) > 2 and q[2] == "eof"))
         elif q[0] == "tight":
-            rest = [t for t in q[4:] if not t.startswith("creat:")]
+            rest = [t for t in q[4:] if not t.startswith(("creat:", "ents:"))]
             ops.append(("tight", q[1] if q[1] == "keep" else int(q[1]), int(q[2]), unhx(q[3]).decode("latin-1"), [(rest[i], unhx(rest[i + 1])) for i in range(0, len(rest) - 1, 2)]))
         elif q[0] == "targs":
             ops.append(("targs", q[1], [unhx(a) for a in q[2:]]))
@@ -374,6 +374,14 @@ def run_both(ctx, env, cases):
                 b = blocks[j]
                 cr = "".join("1" if y == "= ok" else "0" for x, y in zip(b, b[1:] + [""]) if x.startswith("fs creat "))
                 opline += " creat:" + cr
+                groups, cur = [], None
+                for x, y in zip(b, b[1:] + [""]):
+                    if x.startswith("m "):
+                        cur = []
+                        groups.append(cur)
+                    if cur is not None and x == "fs readdir" and y.startswith("= name "):
+                        cur.append(y.split()[2] if len(y.split()) > 2 else "")
+                opline += " ents:" + ";".join(",".join(g) for g in groups)
             ms.append(opline)
             if j < len(blocks):
                 ms += [l for l in blocks[j][1:] if l.startswith("= ")]
@@ -385,7 +393,7 @@ TIGHT_OPS = ("creat", "unlink", "utime", "mkdir", "opendir", "stat", "openr")
 
 
 def tight_msgs(block):
-    """lines of a tight block -> per message list of (op, path-hex), children stats of a listed directory dropped"""
+    """lines of a tight block -> per message list of (op, path-hex), incl. the per-entry stats of a listed directory"""
     out, cur, dirs = [], None, []
     for l in block:
         if l.startswith("m "):
@@ -398,8 +406,6 @@ def tight_msgs(block):
             q = l.split()
             if q[1] == "opendir":
                 dirs.append(q[2])
-            if q[1] == "stat" and any(q[2].startswith(d) and q[2] != d for d in dirs):
-                continue
             if q[2] == "-":          # utime("") / unlink("") on an empty stored name: no file is named
                 continue
             cur.append((q[1], q[2]))
@@ -691,7 +697,10 @@ def compare_case(env, case, il, ml):
         mod = mb[j + 1] if j + 1 < len(mb) else ["<missing>"]
         crash = [l for l in impl if l.startswith("crash")]
         if op[0] == "targs":
-            if impl != mod and not crash and mism is None:
+            tr_, al_ = split_alt(mod)
+            if impl != tr_ and impl in al_:
+                nalt += 1
+            elif impl != tr_ and not crash and mism is None:
                 d = vlib.first_diff(impl, mod)
                 mism = (j, "targs: impl '%s' / model '%s'" % (d[1][:120], d[2][:120]))
             continue
